@@ -337,10 +337,12 @@ class CallMixin:
                         arr = z3.Store(arr, r, z3.Select(hv, r))
                     self.heap.a[field] = arr
         # result
+        floor_before = getattr(run, 'floor', z3.IntVal(-1000000))
         res = self.make_result(c, sc, fi, n)
         sc2 = SpecCtx(self.eng, a, pre, self.heap, res)
         sc2.interp = self
         sc2.nalloc = run.nalloc
+        sc2.floor = floor_before
         sc2.x = sc.x
         for nm, fn in c.ensures:
             g = fn(sc2)
